@@ -12,7 +12,7 @@ EXTRA_SCAN = ["CobraModel/Lemmas/Core.lean", "CobraModel/Lemmas/CoreBase.lean", 
               "CobraModel/Lemmas/SplitRange.lean"]
 
 
-def run_core_property(ctx, module, kinds, oracles, quick, thorough, rule, extra_oracle=None, maxlen=14, assumptions=(), profiles=None):
+def run_core_property(ctx, module, kinds, oracles, quick, thorough, rule, extra_oracle=None, maxlen=14, assumptions=(), profiles=None, pre_stage=None, extra_scan=()):
     if getattr(ctx, "replay", None):
         data = json.loads(open(ctx.replay).read())
         v = data.get("violation") or {}
@@ -23,7 +23,9 @@ def run_core_property(ctx, module, kinds, oracles, quick, thorough, rule, extra_
                 print(f"VIOLATION property={ctx.pid} replay={ctx.replay}")
                 return 1
         return 0
-    common.proof_stage(ctx, module, extra_scan=EXTRA_SCAN)
+    common.proof_stage(ctx, module, extra_scan=EXTRA_SCAN + list(extra_scan))
+    if pre_stage is not None:
+        pre_stage(ctx)
     stats = {}
     n = ctx.scale(quick, thorough)
     done = 0
